@@ -235,6 +235,38 @@ func intrRegexMatchString(e *Exec, st *State, fr *Frame, args []Val, in ssa.Inst
 		return abstract()
 	}
 	e.UsedIntrinsics["regexp.MatchString: exact shape model for anchored literal/class patterns ("+fmt.Sprint(len(shapes))+" shapes)"] = true
+	if have, ok := e.knownShape(st, s); ok {
+		possible := false
+		for _, sh := range shapes {
+			if len(sh) != len(have) {
+				continue
+			}
+			sub, disjoint := true, false
+			for i := range sh {
+				inter := false
+				for b := 0; b < 256; b++ {
+					if have[i].set[b] && !sh[i].set[b] {
+						sub = false
+					}
+					if have[i].set[b] && sh[i].set[b] {
+						inter = true
+					}
+				}
+				if !inter {
+					disjoint = true
+				}
+			}
+			if sub {
+				return []callRes{{st, TupleVal{c.True(), nilErr}}}
+			}
+			if !disjoint {
+				possible = true
+			}
+		}
+		if !possible {
+			return []callRes{{st, TupleVal{c.False(), nilErr}}}
+		}
+	}
 	var rs []callRes
 	noMatch := c.True()
 	for _, sh := range shapes {
@@ -268,6 +300,9 @@ func intrRegexMatchString(e *Exec, st *State, fr *Frame, args []Val, in ssa.Inst
 
 // knownShape returns the recorded shape of a string (matched earlier on this path), if any.
 func (e *Exec) knownShape(st *State, s *StringVal) (rxShape, bool) {
+	if cs, isC := concreteString(s); isC {
+		return litShape(cs), true
+	}
 	for i := len(st.StrFacts) - 1; i >= 0; i-- {
 		f := st.StrFacts[i]
 		if f.C == s.C && f.Off == s.Off && s.Len.IsConst() == false {
